@@ -24,7 +24,7 @@ try:
     ap = sh(f"git -C {wt} apply {patch}")
     report["patch_applies"] = ap.returncode == 0
     for _try in range(3):
-        t = sh(f"cd {wt} && /venv/bin/python -m pytest -q -p no:cacheprovider --timeout=900 --color=no --continue-on-collection-errors 2>&1 | tail -5")
+        t = sh(f"mkdir -p {vc}-tmp && cd {wt} && TMPDIR={vc}-tmp /venv/bin/python -m pytest -q -p no:cacheprovider --timeout=900 --color=no --continue-on-collection-errors 2>&1 | tail -5")
         m = re.search(r"(\d+) passed", t.stdout)
         if m:
             break
@@ -45,6 +45,7 @@ try:
 finally:
     sh(f"git -C /repo worktree remove --force {wt}")
     shutil.rmtree(vc, ignore_errors=True)
+    shutil.rmtree(vc + '-tmp', ignore_errors=True)
 ok = report.get("patch_applies") and report.get("tests_passed_with_patch") == 263 and report.get("demo_original_exit") == 0 and report.get("demo_patched_exit") == 1
 report["confirmed"] = bool(ok)
 print(json.dumps(report, indent=1))
